@@ -1,5 +1,8 @@
 //! C07: determinant and inverse through every entry point.
-//!   (7 op ty (n0 n1) rows cols (x ...) (pr pc))      op 1 = determinant, 2 = inverse
+//!   (7 op ty (n0 n1) rows cols (x ...) (pr pc))      op 1 = determinant, 2 = inverse,
+//!   3 = determinant + inverse presence at f64 on small-integer entries (result: exact integer)
+//!   ty 0 = Rat, 1 = Fp, 2 = Wrapping<i64> (ring, not a field), 3 = Trace<Rat> (dual numbers;
+//!   `==` of Trace compares numbers only, so every comparison here is made on ENCODINGS)
 //! Result: (matrix-route tensor-route); see coq/theories/Run/RunC07.v.
 //! Matrix forms: Matrix::{determinant, inverse}, linear_algebra::{determinant, inverse}.
 //! Tensor forms (all must agree, checked here): Tensor method, linear_algebra::*_tensor on
@@ -8,14 +11,73 @@
 //! transposed-and-renamed data, a TensorMask view hiding an extra row pr and column pc, and a
 //! TensorRange view into a padded tensor.  Exact oracles: A * A^-1 = I = A^-1 * A; the inverse is
 //! present exactly when the determinant is present and non-zero.
-use crate::num::Enc;
+use crate::num::{Enc, Fp, Rat};
 use crate::sx::*;
-use crate::with_ty;
+use easy_ml::differentiation::Trace;
+use num_bigint::BigInt;
+use num_integer::Integer;
+use num_traits::ToPrimitive;
+use std::num::Wrapping;
 use easy_ml::linear_algebra;
 use easy_ml::matrices::Matrix;
 use easy_ml::numeric::{Numeric, NumericRef};
 use easy_ml::tensors::views::{IndexRange, TensorView};
 use easy_ml::tensors::Tensor;
+
+/// Element types of C07 and their encodings (own trait: Enc for Wrapping<i64> belongs to c03.rs).
+trait El: Sized + Clone {
+    /// exact field: A * A^-1 = I is checked
+    const FIELD: bool;
+    fn e(&self) -> Sx;
+    fn d(s: &Sx) -> Option<Self>;
+    fn sm(v: i64) -> Self;
+}
+impl El for Rat {
+    const FIELD: bool = true;
+    fn e(&self) -> Sx { self.enc() }
+    fn d(s: &Sx) -> Option<Self> { <Rat as Enc>::dec(s) }
+    fn sm(v: i64) -> Self { <Rat as Enc>::small(v) }
+}
+impl El for Fp {
+    const FIELD: bool = true;
+    fn e(&self) -> Sx { self.enc() }
+    fn d(s: &Sx) -> Option<Self> { <Fp as Enc>::dec(s) }
+    fn sm(v: i64) -> Self { <Fp as Enc>::small(v) }
+}
+impl El for Wrapping<i64> {
+    const FIELD: bool = false;
+    fn e(&self) -> Sx { z(self.0) }
+    fn d(s: &Sx) -> Option<Self> {
+        let m = s.int()?.mod_floor(&(BigInt::from(1) << 64));
+        Some(Wrapping(m.to_u64()? as i64))
+    }
+    fn sm(v: i64) -> Self { Wrapping(v) }
+}
+impl El for Trace<Rat> {
+    const FIELD: bool = true;
+    fn e(&self) -> Sx { l(vec![self.number.enc(), self.derivative.enc()]) }
+    fn d(s: &Sx) -> Option<Self> {
+        let v = s.list()?;
+        if v.len() != 2 {
+            return None;
+        }
+        Some(Trace { number: <Rat as Enc>::dec(&v[0])?, derivative: <Rat as Enc>::dec(&v[1])? })
+    }
+    fn sm(v: i64) -> Self { Trace::constant(Rat::int(v)) }
+}
+/// f64 on small-integer inputs (op 3): an integral result is its integer, anything else its bits
+impl El for f64 {
+    const FIELD: bool = false;
+    fn e(&self) -> Sx {
+        if self.fract() == 0.0 && self.abs() < 9.0e15 {
+            z(*self as i64)
+        } else {
+            l(vec![z(-77), z(self.to_bits())])
+        }
+    }
+    fn d(s: &Sx) -> Option<Self> { Some(s.i64()? as f64) }
+    fn sm(v: i64) -> Self { v as f64 }
+}
 
 pub fn run(args: &[Sx]) -> Sx {
     if args.len() != 7 {
@@ -37,29 +99,65 @@ pub fn run(args: &[Sx]) -> Sx {
     if rows > 64 || cols > 64 {
         return bad_case();
     }
-    with_ty!(ty, go(op, (names[0], names[1]), rows, cols, &args[5], (pad[0], pad[1])))
+    let (nm, pd) = ((names[0], names[1]), (pad[0], pad[1]));
+    if op == 3 {
+        // f64 on small integers: determinant (all forms, bit for bit) and inverse presence
+        if ty != 0 || rows > 6 || cols > 6 {
+            return bad_case();
+        }
+        match args[5].i64s() {
+            Some(v) if v.iter().all(|x| x.abs() <= 3) => {}
+            _ => return bad_case(),
+        }
+        let det = go::<f64>(1, nm, rows, cols, &args[5], pd);
+        let inv = go::<f64>(2, nm, rows, cols, &args[5], pd);
+        let (Some(d), Some(i)) = (det.list(), inv.list()) else { return det };
+        if d.len() != 2 || d[0].int() == Some(&BigInt::from(-8)) {
+            return det;
+        }
+        if i.len() != 2 || i[0].int() == Some(&BigInt::from(-8)) {
+            return inv;
+        }
+        if d[0] != d[1] {
+            return inconsistent(750);
+        }
+        let present = |x: &Sx| x.list().is_some_and(|v| !v.is_empty());
+        if present(&i[0]) != present(&i[1]) {
+            return inconsistent(751);
+        }
+        return l(vec![d[1].clone(), boolean(present(&i[1]))]);
+    }
+    match ty {
+        0 => go::<Rat>(op, nm, rows, cols, &args[5], pd),
+        1 => go::<Fp>(op, nm, rows, cols, &args[5], pd),
+        2 => go::<Wrapping<i64>>(op, nm, rows, cols, &args[5], pd),
+        3 => go::<Trace<Rat>>(op, nm, rows, cols, &args[5], pd),
+        _ => bad_case(),
+    }
 }
 
-fn tdata<T: Clone>(t: &Tensor<T, 2>) -> Vec<T> {
-    t.iter().collect()
+fn tdata<T: El>(t: &Tensor<T, 2>) -> Vec<Sx> {
+    t.iter().map(|x| x.e()).collect()
 }
 
-fn enc_tensor<T: Enc + Clone>(t: &Tensor<T, 2>) -> Sx {
-    l(vec![shape_sx(&t.shape()), l(t.iter().map(|x| x.enc()).collect())])
+fn enc_tensor<T: El>(t: &Tensor<T, 2>) -> Sx {
+    l(vec![shape_sx(&t.shape()), l(t.iter().map(|x| x.e()).collect())])
 }
 
 fn go<T>(op: i64, names: (usize, usize), rows: usize, cols: usize, data: &Sx, pad: (usize, usize)) -> Sx
 where
-    T: Numeric + Enc + PartialEq + std::fmt::Debug,
+    T: Numeric + El + PartialEq,
     for<'a> &'a T: NumericRef<T>,
 {
-    let Some(data) = crate::num::dec_list::<T>(data) else { return bad_case() };
+    let Some(data) = data.list().and_then(|v| v.iter().map(T::d).collect::<Option<Vec<T>>>()) else {
+        return bad_case();
+    };
     if data.len() != rows * cols {
         return bad_case();
     }
     let (n0, n1) = (dim(names.0), dim(names.1));
     let at = |i: usize, j: usize| data[i * cols + j].clone();
-    let junk = |k: usize| T::small(3 + (k as i64 % 5));
+    let junk = |k: usize| T::sm(3 + (k as i64 % 5));
 
     let matrix = Matrix::from_flat_row_major((rows, cols), data.clone());
     let tensor = Tensor::from([(n0, rows), (n1, cols)], data.clone());
@@ -101,11 +199,12 @@ where
 
     match op {
         1 => {
-            let dm = matrix.determinant();
-            if linear_algebra::determinant::<T>(&matrix) != dm {
+            let enc = |x: Option<T>| x.map(|v| v.e());
+            let dm = enc(matrix.determinant());
+            if enc(linear_algebra::determinant::<T>(&matrix)) != dm {
                 return inconsistent(701);
             }
-            let dt = tensor.determinant();
+            let dt = enc(tensor.determinant());
             let mut forms: Vec<(i64, Option<T>)> = vec![];
             forms.push((702, linear_algebra::determinant_tensor::<T, _, _>(&tensor)));
             forms.push((703, linear_algebra::determinant_tensor::<T, _, _>(tensor.clone())));
@@ -132,15 +231,18 @@ where
                 Err(_) => return inconsistent(714),
             }
             for (code, f) in forms {
-                if f != dt {
+                if enc(f) != dt {
                     return inconsistent(code);
                 }
             }
-            l(vec![opt(dm.map(|x| x.enc())), opt(dt.map(|x| x.enc()))])
+            l(vec![opt(dm), opt(dt)])
         }
         2 => {
             let im = matrix.inverse();
-            if linear_algebra::inverse::<T>(&matrix) != im {
+            let mkey = |x: &Option<Matrix<T>>| {
+                x.as_ref().map(|m| (m.size(), m.row_major_iter().map(|e| e.e()).collect::<Vec<Sx>>()))
+            };
+            if mkey(&linear_algebra::inverse::<T>(&matrix)) != mkey(&im) {
                 return inconsistent(721);
             }
             let it = tensor.inverse();
@@ -186,13 +288,16 @@ where
                 return inconsistent(741);
             }
             // exact oracle: both products are the identity
-            if let Some(x) = &im {
-                let identity = Matrix::diagonal(T::one(), (rows, rows));
-                if x.size() != (rows, cols) || &matrix * x != identity || x * &matrix != identity {
+            if let (Some(x), true) = (&im, T::FIELD) {
+                let identity = mkey(&Some(Matrix::diagonal(T::one(), (rows, rows))));
+                if x.size() != (rows, cols)
+                    || mkey(&Some(&matrix * x)) != identity
+                    || mkey(&Some(x * &matrix)) != identity
+                {
                     return inconsistent(742);
                 }
             }
-            if let Some(x) = &it {
+            if let (Some(x), true) = (&it, T::FIELD) {
                 let identity = Tensor::diagonal([(n0, rows), (n1, rows)], T::one());
                 let left = &tensor * x;
                 let right = x * &tensor;
@@ -207,7 +312,7 @@ where
             }
             l(vec![
                 opt(im.map(|x| {
-                    l(vec![z(x.rows()), z(x.columns()), l(x.row_major_iter().map(|e| e.enc()).collect())])
+                    l(vec![z(x.rows()), z(x.columns()), l(x.row_major_iter().map(|e| e.e()).collect())])
                 })),
                 opt(it.map(|x| enc_tensor(&x))),
             ])
